@@ -36,6 +36,9 @@ var optPatterns = []optPattern{
 	{"example.com/h", "example.com", "/h", "/h/"},
 	{"{sub}.example.com/x/{y}", "a.example.com", "/x/1", "/x/1/"},
 	{"a.b.c/", "a.b.c", "/", ""},
+	// upper-case letters in the hostname (static labels and parameter names): kept as written by every accessor
+	{"API.Example.com/v1/{id}", "API.Example.com", "/v1/7", "/v1/7/"},
+	{"Svc.{Tenant}.COM/z/{any}", "Svc.acme.COM", "/z/y", "/z/y/"},
 }
 
 // patterns NewRoute must reject (the model's view: no '/', or an unclosed / lone wildcard)
